@@ -131,6 +131,10 @@ def any_atomic(rng):
 # generation
 # ----------------------------------------------------------------------
 
+ANY_POOL = [BT.TimeStamp, BT.DeviceObjectPropertyReference, BT.PropertyValue, BT.EventParameter, BT.DailySchedule, BT.SpecialEvent,
+            BT.PriorityArray if hasattr(BT, "PriorityArray") else BT.DateTime, BT.Recipient, BT.Destination, BT.CalendarEntry,
+            BT.LogRecord if hasattr(BT, "LogRecord") else BT.DateTime, BT.Scale, BT.Prescale, BT.ShedLevel]
+
 def gen_element(rng, klass, depth, presence=None):
     """a value for an element of class klass"""
     if klass is Any or klass is SequenceOfAny:
@@ -139,13 +143,20 @@ def gen_element(rng, klass, depth, presence=None):
         a = Any()
         # the content of an Any: an atomic, a small list of atomics, or a small constructed value
         r = rng.random()
-        if r < 0.5:
+        if r < 0.4:
             a.cast_in(any_atomic(rng))
-        elif r < 0.8:
+        elif r < 0.6:
             for _ in range(rng.randrange(0, 4)):
                 a.cast_in(any_atomic(rng))
-        else:
+        elif r < 0.7 or depth > 3:
             a.cast_in(gen_element(rng, BT.DateTime, depth + 1))
+        else:
+            # a constructed value, so that the Any holds nested opening/closing pairs (depth 2 and more)
+            k = rng.choice(ANY_POOL)
+            try:
+                a.cast_in(gen_element(rng, k, depth + 1))
+            except CannotBuild:
+                a.cast_in(gen_element(rng, BT.DateTime, depth + 1))
         return a
     if klass is AnyAtomic or (inspect.isclass(klass) and issubclass(klass, AnyAtomic)):
         return any_atomic(rng)
